@@ -1,6 +1,6 @@
 (* Proofs about Model/Http.v (C18). *)
 From Coq Require Import ZArith List String Ascii Bool.
-From PJ Require Import Base.Json Base.Res Generated.Consts Model.Http.
+From PJ Require Import Base.Json Base.Res Generated.Consts Model.Msg Model.Bind Model.Dispatch Model.Http Lemmas.DispatchL.
 Import ListNotations.
 Open Scope string_scope. Open Scope list_scope.
 
@@ -64,3 +64,32 @@ Theorem uniform i j h b : handle i SDefault h b = handle j SDefault h b.
 Proof. unfold handle. destruct (accepted_type h); cbn; auto. destruct b as [[[doc codes]|]|]; auto. destruct i, j; reflexivity. Qed.
 Theorem uniform_status_fn f h b : handle IAiohttp f h b = handle IFlask f h b.
 Proof. reflexivity. Qed.
+
+(* composed with Model/Dispatch.v: whatever the dispatcher answers, the status handed back is the status function applied to the
+   error tuple OF THE DOCUMENT - one entry per answered call, 0 for a success - so a status function may count and compare *)
+Theorem relay_dispatch cfg l ctx i f h doc codes lg :
+  accepted_type h = true -> dispatch cfg l ctx = (Ok (Some (doc, codes)), lg) ->
+  handle i f h (BText (Some (doc, codes))) =
+  {| r_status := status_of (effective_status i f) (codes_of_doc doc); r_ctype := Some default_content_type;
+     r_body := Some doc; r_dispatched := true |}.
+Proof.
+  intros Ha Hd. rewrite (relay i f h (Some (doc, codes)) Ha).
+  destruct (dispatch_wf _ _ _ _ _ _ Hd) as [_ Hc]. rewrite Hc. reflexivity.
+Qed.
+Theorem codes_per_call docs : List.length (codes_of_doc (JArr docs)) = List.length docs.
+Proof. cbn. apply map_length. Qed.
+(* the two status functions of the harness that look at successes / at the count *)
+Theorem mixed_spec a p k codes :
+  status_of (SMixed a p k) codes =
+  if forallb (Z.eqb 0) codes then k else if existsb (Z.eqb 0) codes then p else a.
+Proof. reflexivity. Qed.
+Theorem mixed_partial a p k codes : In 0%Z codes -> (exists c, In c codes /\ c <> 0%Z) -> status_of (SMixed a p k) codes = p.
+Proof.
+  intros H0 [c [Hc Hn]]. cbn.
+  destruct (forallb (Z.eqb 0) codes) eqn:E.
+  - rewrite forallb_forall in E. specialize (E c Hc). apply Z.eqb_eq in E. congruence.
+  - assert (X : existsb (Z.eqb 0) codes = true) by (apply existsb_exists; exists 0%Z; split; [assumption|reflexivity]).
+    rewrite X. reflexivity.
+Qed.
+Theorem count_spec b docs : status_of (SCount b) (codes_of_doc (JArr docs)) = (b + Z.of_nat (List.length docs))%Z.
+Proof. cbn [status_of]. rewrite codes_per_call. reflexivity. Qed.
